@@ -4,7 +4,7 @@
    which are finite and proved here by computation on every run. *)
 From Coq Require Import List String Ascii Bool Arith ZArith Permutation Sorted.
 From Helm Require Import Common.Assoc Common.SortUniq Text.Split Text.KindSort Text.KindSortProofs
-  Text.SplitProofs Text.Classify Text.ClassifyProofs Text.Batch Text.BatchProofs Gen.KindOrder Gen.Events.
+  Text.SplitProofs Text.Classify Text.ClassifyProofs Text.Uninstall Text.UninstallProofs Text.Batch Text.BatchProofs Gen.KindOrder Gen.Events.
 Import ListNotations.
 Local Open Scope string_scope.
 
@@ -134,6 +134,22 @@ Theorem C08_less_is_rank :
 Proof. exact kind_leb_rank. Qed.
 Print Assumptions C08_less_is_rank.
 
+(* uninstall: the stored manifest is split again, sorted with the kind table passed by
+   deleteRelease (UninstallOrder), resource-policy: keep documents are set aside, and the
+   rest is deleted in that order: sorted by rank, nothing lost or added *)
+Theorem C08_uninstall_order :
+  forall (head_of : string -> option head) (order : list string) (manifest : string) del keep,
+    delete_order head_of order manifest = DeleteOrder del keep ->
+    exists gs0,
+      map gdoc gs0 = filter (is_generic head_of) (all_docs (split_map manifest)) /\
+      Permutation (del ++ keep) gs0 /\
+      (forall m, In m del -> kept m = false) /\ (forall m, In m keep -> kept m = true) /\
+      StronglySorted (fun a b => rank_leb (kind_rank order (h_kind (m_head a))) (kind_rank order (h_kind (m_head b))) = true) del /\
+      del = filter (fun m => negb (kept m)) (sort_by_kind (fun m => h_kind (m_head m)) order gs0) /\
+      keep = filter kept (sort_by_kind (fun m => h_kind (m_head m)) order gs0).
+Proof. exact delete_order_spec. Qed.
+Print Assumptions C08_uninstall_order.
+
 (* ---- obligations over the regenerated tables ---------------------------------------- *)
 Theorem C08_tables_nodup : NoDup install_order /\ NoDup uninstall_order /\ NoDup (map fst hook_events).
 Proof. repeat split; apply nodupb_NoDup; vm_compute; reflexivity. Qed.
@@ -197,7 +213,8 @@ Theorem C08_hook_tables :
                  ("test-success", "test")] /\
   hook_annotation = "helm.sh/hook" /\ hook_weight_annotation = "helm.sh/hook-weight" /\
   hook_delete_annotation = "helm.sh/hook-delete-policy" /\
-  hook_output_log_annotation = "helm.sh/hook-output-log-policy" /\ notes_file_suffix = "NOTES.txt".
+  hook_output_log_annotation = "helm.sh/hook-output-log-policy" /\ notes_file_suffix = "NOTES.txt" /\
+  resource_policy_annotation = "helm.sh/resource-policy" /\ keep_policy = "keep".
 Proof. repeat split; reflexivity. Qed.
 Print Assumptions C08_hook_tables.
 
@@ -365,3 +382,21 @@ Proof.
   - vm_compute. reflexivity.
 Qed.
 Print Assumptions C08_split_join_inhabited.
+
+(* uninstall of a small release: webhook first, namespace last, the kept ConfigMap set aside *)
+Definition ex_un_heads (d : string) : option head :=
+  if String.eqb d "ns" then Some (mkHead "v1" "Namespace" (Some ("n", [])))
+  else if String.eqb d "cm" then Some (mkHead "v1" "ConfigMap" (Some ("c", [("helm.sh/resource-policy", " Keep ")])))
+  else if String.eqb d "svc" then Some (mkHead "v1" "Service" (Some ("s", [])))
+  else if String.eqb d "hook" then Some (mkHead "v1" "ValidatingWebhookConfiguration" (Some ("w", [])))
+  else None.
+
+Example C08_uninstall_inhabited :
+  delete_order ex_un_heads uninstall_order
+    ("---" ++ nl ++ "ns" ++ nl ++ "---" ++ nl ++ "cm" ++ nl ++ "---" ++ nl ++ "svc" ++ nl ++ "---" ++ nl ++ "hook" ++ nl) =
+  DeleteOrder [mkManifest "manifest-3" "hook" (mkHead "v1" "ValidatingWebhookConfiguration" (Some ("w", [])));
+               mkManifest "manifest-2" "svc" (mkHead "v1" "Service" (Some ("s", [])));
+               mkManifest "manifest-0" "ns" (mkHead "v1" "Namespace" (Some ("n", [])))]
+              [mkManifest "manifest-1" "cm" (mkHead "v1" "ConfigMap" (Some ("c", [("helm.sh/resource-policy", " Keep ")])))].
+Proof. vm_compute. reflexivity. Qed.
+Print Assumptions C08_uninstall_inhabited.
